@@ -365,14 +365,14 @@ func init() {
 			// position 0 / value 0 taken for an empty slot)
 			"bdhp-two-runs": {Cfg: gen.Cfg{Type: "BDHP", BufferSize: 128, WindowSize: 128, BlockSize: 32, InputLen1: 7, HashBits1: 8, InputLen2: 8, HashBits2: 12},
 				Family: "runs", Stream: append(append(bytes.Repeat([]byte{'a'}, 31), 'b'), bytes.Repeat([]byte{'a'}, 32)...),
-				Ops:    []POp{{K: "write", A: 1, B: 0}, {K: "parse"}, {K: "parse"}}},
+				Ops: []POp{{K: "write", A: 1, B: 0}, {K: "parse"}, {K: "parse"}}},
 			"bup-zero-start": {Cfg: gen.Cfg{Type: "BUP", BufferSize: 128, WindowSize: 128, BlockSize: 32, InputLen: 2, HashBits: 1, BucketSize: 64},
 				Family: "runs", Stream: append([]byte{0, 0}, bytes.Repeat([]byte{'c'}, 62)...),
-				Ops:    []POp{{K: "write", A: 1, B: 0}, {K: "parse"}, {K: "parse"}}},
+				Ops: []POp{{K: "write", A: 1, B: 0}, {K: "parse"}, {K: "parse"}}},
 			// reproducer of the recorded finding KF-C19-BUP
 			"bup-old-run": {Cfg: gen.Cfg{Type: "BUP", BufferSize: 128, WindowSize: 128, BlockSize: 32, InputLen: 3, HashBits: 8, BucketSize: 64},
 				Family: "runs", Stream: append(append(bytes.Repeat([]byte{'c'}, 30), 'x', 'y'), bytes.Repeat([]byte{'c'}, 32)...),
-				Ops:    []POp{{K: "write", A: 1, B: 0}, {K: "parse"}, {K: "parse"}}},
+				Ops: []POp{{K: "write", A: 1, B: 0}, {K: "parse"}, {K: "parse"}}},
 			"osap-long-run": longRunCase("OSAP"),
 			"gsap-long-run": longRunCase("GSAP"),
 			"hp-long-run":   longRunCase("HP"),
